@@ -202,6 +202,8 @@ def run_one(case):
         return {'status': 'rejected', 'tags': {'design-rejected': 1}, 'sample': case}
     span = equipment['Span']['default']
     si = equipment['SI']['default']
+    for d in c.settings_vs_document(equipment, eq)[:2]:
+        v('library-settings-changed', f'after design, {d}')
     lo, hi, step = span.delta_power_range_db
     ext = span.target_extended_gain
     pref = si.power_dbm
